@@ -220,7 +220,7 @@ def rule_point_deserializers(fx, rep):
         for b7, comp in itertools.product((0, 1), (0, 1)):
             inst = '%s:deserialize:bit7=%d,compressed=%d' % (name, b7, comp)
             M = SM.Model(fx, b7=b7)
-            M.on_stream = lambda fr, op, local, _M=M: fr.deref_operand(op) == 'READER'
+            M.on_stream = lambda fr, op, local, _M=M: SM.referent(fr, op) == 'READER'
             I = _serdes_interp(fx, M)
             try:
                 res = I.run(path, [('byref', 'READER'), Int(comp, 1)])
@@ -307,7 +307,7 @@ def rule_point_serializers(fx, rep):
         where = fx.fn(path)['span']
         for comp in (0, 1):
             M = SM.Model(fx)
-            M.on_stream = lambda fr, op, local, _M=M: fr.deref_operand(op) == 'WRITER'
+            M.on_stream = lambda fr, op, local, _M=M: SM.referent(fr, op) == 'WRITER'
             I = _serdes_interp(fx, M)
             try:
                 res = I.run(path, [('byref', 'SELF'), ('byref', 'WRITER'), Int(comp, 1)])
@@ -348,74 +348,141 @@ def rule_point_serializers(fx, rep):
     rep.floor('WIRE', 'point-serializers', n, 4)
 
 
+def _flat(v):
+    if isinstance(v, Agg):
+        out = []
+        for x in v.items:
+            out.extend(_flat(x))
+        return out
+    return [v]
+
+
 def rule_scalars(fx, rep):
-    # Fr: 32 bytes big endian, range-checked
-    ty = 'bls12_381::fr::Fr'
-    dp = fx.impl_method(SERDES, ty, 'deserialize')
-    b = fx.body(dp) if dp else None
-    if b is None:
-        rep.fail('WIRE', 'Fr:deserialize:anchor', 'not found')
-    else:
-        rep.fn(dp)
-        o = Origin(b)
-        cs = [(i, t, callee(t)) for i, t in b.calls()]
-        reads = [x for x in cs if x[2] and x[2].get('name') == 'read_be']
-        frs = [x for x in cs if x[2] and x[2].get('name') == 'from_repr']
-        unw = [x for x in cs if x[2] and x[2].get('name') in ('unwrap', 'expect', 'unwrap_or', 'unwrap_or_default', 'unwrap_unchecked')]
-        other_reads = [x for x in cs if x[2] and x[2].get('trait') == 'std::io::Read']
-        ok = len(reads) == 1 and len(frs) == 1 and not unw and not other_reads and frs[0][2].get('self_ty') == ty
-        rep.check(ok, 'WIRE', 'Fr:deserialize', 'one 32-byte big-endian read, one Fr::from_repr range check, no unwrap', 'reads=%d from_repr=%d unwraps=%d raw reads=%d' % (len(reads), len(frs), len(unw), len(other_reads)), fx.fn(dp)['span'], construct=dp)
-        # both results are examined: ? on read_be, match on from_repr with Err arm returning Err
-        a = fx.adts.get('bls12_381::fr::FrRepr')
-        rep.check(a and a['variants'][0]['fields'][0]['ty'] == '[u64; 4]', 'BYTES', 'Fr:repr-width', 'FrRepr is 4 limbs = 32 bytes')
-        ok2 = error_discipline(fx, b)
-        rep.check(not ok2, 'GUARD', 'Fr:deserialize:errors-propagated', 'every fallible result is branched on and its error arm returns Err', '; '.join(ok2), fx.fn(dp)['span'], construct=dp)
-    sp = fx.impl_method(SERDES, ty, 'serialize')
-    sb = fx.body(sp) if sp else None
-    if sb is not None:
+    """Fr (1 x 32 bytes) and Fq12 (12 x 48 bytes): stream model with two-sided read / range-check results.
+    deserialize: the k-th read from the caller's reader, range-checked by from_repr of the right field, fills slot k; Ok on
+    exactly one path (everything succeeded), Err on every other, no panic.  serialize: the canonical bytes of the slots in the
+    same order reach the caller's writer; a failing write gives Err."""
+    import serdesmodel as SM
+    for ty, label, nco, width, fty, rty in (('bls12_381::fr::Fr', 'Fr', 1, 32, 'bls12_381::fr::Fr', 'bls12_381::fr::FrRepr'),
+                                           ('bls12_381::fq12::Fq12', 'Fq12', 12, 48, 'bls12_381::fq::Fq', 'bls12_381::fq::FqRepr')):
+        a = fx.adts.get(rty)
+        limbs = a['variants'][0]['fields'][0]['ty'] if a else ''
+        rep.check(limbs == '[u64; %d]' % (width // 8), 'BYTES', '%s:repr-width' % label, '%s is %d limbs = %d bytes' % (rty.rsplit('::', 1)[1], width // 8, width), 'representation is %s' % limbs)
+        # ---- deserialize
+        dp = fx.impl_method(SERDES, ty, 'deserialize')
+        if dp is None or fx.body(dp) is None:
+            rep.fail('WIRE', '%s:deserialize:anchor' % label, 'not found')
+        else:
+            rep.fn(dp)
+            where = fx.fn(dp)['span']
+            M = SM.Model(fx)
+            I = _serdes_interp(fx, M)
+            I.max_paths = 128
+            bad = []
+            try:
+                res = I.run(dp, [('byref', 'READER'), exp.TOP])
+            except (exp.NotDerivable, exp.Budget) as e:
+                res = []
+                bad.append('not derivable: %s' % e)
+            rep.sites(I.call_sites)
+            oks = 0
+            for pth, ret, _ in res:
+                if isinstance(ret, tuple) and ret and ret[0] == 'diverges':
+                    bad.append('panic edge at %s (malformed input must yield Err)' % (ret[1],))
+                    continue
+                if any(e[0] in ('unwrap-fails',) or e[0].startswith('assert-') for e in pth.events):
+                    bad.append('a result is unwrapped / asserted instead of being propagated')
+                reads = [e for e in pth.events if e[0] == 'repr-read']
+                for e in reads:
+                    if not e[2]:
+                        bad.append('read_be from something other than the caller\'s reader at %s' % e[4])
+                    if e[3] != rty:
+                        bad.append('reads a %s, expected %s' % (e[3], rty))
+                if any(e[0] == 'stream-read' for e in pth.events):
+                    bad.append('raw Read call besides the big-endian coefficient reads')
+                labs = [lab_name(l) for l in pth.labels]
+                failed = any(l[0] in ('read', 'from_repr') and l[1] for l in labs)
+                r = SM.as_result(ret)
+                oc = r[0] if r else '?'
+                if failed:
+                    if oc != 'Err':
+                        bad.append('a failed read / out-of-range coefficient is not reported as Err (returns %s)' % oc)
+                    continue
+                if oc != 'Ok':
+                    bad.append('all reads and range checks succeed but the result is %s' % oc)
+                    continue
+                oks += 1
+                slots = _flat(r[1])
+                want = [('fe', k, fty) for k in range(nco)]
+                if slots != want:
+                    bad.append('coefficient slots are filled from %s, expected read k (range-checked as %s) in slot k' % ([x[1] if isinstance(x, tuple) and len(x) > 1 else x for x in slots], fty.rsplit('::', 1)[1]))
+                if len(reads) != nco:
+                    bad.append('%d reads on the success path, expected %d' % (len(reads), nco))
+                frs = [e for e in pth.events if e[0] == 'from_repr']
+                if [e[1] for e in frs] != list(range(nco)):
+                    bad.append('range checks are applied to reads %s' % [e[1] for e in frs])
+            if res and oks != 1:
+                bad.append('%d success paths' % oks)
+            rep.check(not bad, 'WIRE', '%s:deserialize' % label, '%d big-endian read(s) of %d bytes from the caller\'s reader, each range-checked by %s::from_repr, slot k <- read k; every failure -> Err; no panic' % (nco, width, fty.rsplit('::', 1)[1]),
+                      '; '.join(sorted(set(bad))[:3]), where, construct=dp)
+        # ---- serialize
+        sp = fx.impl_method(SERDES, ty, 'serialize')
+        if sp is None or fx.body(sp) is None:
+            rep.fail('WIRE', '%s:serialize:anchor' % label, 'not found')
+            continue
         rep.fn(sp)
-        o = Origin(sb)
-        t = o.local(0)
-        ok = t[0] == 'call' and t[1].get('name') == 'write_be' and strip(t[2][0])[0] == 'call' and strip(t[2][0])[1].get('name') == 'into_repr' and strip(strip(t[2][0])[2][0]) == ('param', 1) and strip(t[2][1]) == ('param', 2)
-        rep.check(ok, 'WIRE', 'Fr:serialize', 'into_repr().write_be(writer)', 'serialize is %s' % term_str(t), fx.fn(sp)['span'], construct=sp)
-    # Fq12: 12 coefficients, each range-checked, order c0.c0.c0 ... c1.c2.c1
-    ty = 'bls12_381::fq12::Fq12'
-    dp = fx.impl_method(SERDES, ty, 'deserialize')
-    b = fx.body(dp) if dp else None
-    if b is None:
-        rep.fail('WIRE', 'Fq12:deserialize:anchor', 'not found')
-        return
-    rep.fn(dp)
-    cs = [(i, t, callee(t)) for i, t in b.calls()]
-    reads = [x for x in cs if x[2] and x[2].get('name') == 'read_be']
-    frs = [x for x in cs if x[2] and x[2].get('name') == 'from_repr' and x[2].get('self_ty') == 'bls12_381::fq::Fq']
-    unw = [x for x in cs if x[2] and x[2].get('name') in ('unwrap', 'expect', 'unwrap_or', 'unwrap_or_default')]
-    other_reads = [x for x in cs if x[2] and x[2].get('trait') == 'std::io::Read' and x[2].get('name') != 'read_exact']
-    rep.check(len(reads) == 12 and len(frs) == 12 and not unw and not other_reads, 'WIRE', 'Fq12:deserialize:counts', '12 big-endian reads, 12 Fq::from_repr range checks, no unwrap',
-              'reads=%d from_repr=%d unwraps=%d raw reads=%d' % (len(reads), len(frs), len(unw), len(other_reads)), fx.fn(dp)['span'], construct=dp)
-    errs = error_discipline(fx, b)
-    rep.check(not errs, 'GUARD', 'Fq12:deserialize:errors-propagated', 'every fallible result is branched on and its error arm returns Err', '; '.join(errs[:3]), fx.fn(dp)['span'], construct=dp)
-    # order of coefficients: the k-th from_repr result lands in slot k of (c0.c0.c0, c0.c0.c1, c0.c1.c0, ...)
-    order = fq12_slot_order(fx, b)
-    rep.check(order == list(range(12)), 'BYTES', 'Fq12:deserialize:slot-order', 'the k-th coefficient read fills slot k in the order c0.c0.c0, c0.c0.c1, ..., c1.c2.c1',
-              'coefficient slots are filled from reads %s' % (order,), fx.fn(dp)['span'], construct=dp)
-    sp = fx.impl_method(SERDES, ty, 'serialize')
-    sb = fx.body(sp) if sp else None
-    if sb is not None:
-        rep.fn(sp)
-        from mirutil import Resolver
-        r = Resolver(sb)
-        seq = []
-        for i, t in sorted(sb.calls(), key=lambda x: x[0]):
-            c = callee(t)
-            if c and c.get('name') == 'into_repr':
-                ref = r.operand_referent(t['args'][0])
-                if ref and ref[0] == 'place' and ref[1]['l'] == 1:
-                    seq.append(tuple(e[1] for e in ref[1]['p'] if e[0] == 'f'))
-        want = [(a, b_, c_) for a in (0, 1) for b_ in (0, 1, 2) for c_ in (0, 1)]
-        rep.check(seq == want, 'BYTES', 'Fq12:serialize:slot-order', 'writes the 12 coefficients in the order the reader expects', 'writes coefficients %s' % (seq,), fx.fn(sp)['span'], construct=sp)
-        ws = [t for _, t in sb.calls() if (callee(t) or {}).get('name') == 'write_be']
-        rep.check(len(ws) == 12, 'BYTES', 'Fq12:serialize:count', '12 x 48 = 576 bytes', '%d write_be calls' % len(ws), fx.fn(sp)['span'])
+        where = fx.fn(sp)['span']
+
+        def nest(shape, prefix=''):
+            if not shape:
+                return 's' + prefix
+            return Agg([nest(shape[1:], prefix + str(k)) for k in range(shape[0])])
+        selfv = 'SELF' if nco == 1 else nest((2, 3, 2))
+        srcs = ['SELF'] if nco == 1 else ['s%d%d%d' % (a_, b_, c_) for a_ in (0, 1) for b_ in (0, 1, 2) for c_ in (0, 1)]
+        want = [('cb', s_, j) for s_ in srcs for j in range(width)]
+        M = SM.Model(fx)
+        M.on_stream = lambda fr, op, local, _M=M: SM.referent(fr, op) == 'WRITER'
+        I = _serdes_interp(fx, M)
+        I.max_paths = 128
+        bad = []
+        try:
+            res = I.run(sp, [('byref', selfv), ('byref', 'WRITER'), exp.TOP])
+        except (exp.NotDerivable, exp.Budget) as e:
+            res = []
+            bad.append('not derivable: %s' % e)
+        rep.sites(I.call_sites)
+        oks = 0
+        for pth, ret, _ in res:
+            if isinstance(ret, tuple) and ret and ret[0] == 'diverges':
+                bad.append('panic edge at %s' % (ret[1],))
+                continue
+            labs = [lab_name(l) for l in pth.labels]
+            failed = any(l[0] == 'write' and l[1] for l in labs)
+            r = SM.as_result(ret)
+            oc = r[0] if r else '?'
+            if failed:
+                if oc not in ('Err',):
+                    bad.append('a failed write is not reported as Err (returns %s)' % oc)
+                continue
+            if oc == 'Err':
+                bad.append('returns Err although every write succeeded')
+                continue
+            oks += 1
+            out = []
+            for e in pth.events:
+                if e[0] == 'stream-write':
+                    if not e[3]:
+                        bad.append('writes to something other than the caller\'s writer at %s' % e[4])
+                    if e[1] not in ('write_all', 'write_be'):
+                        bad.append('writes with Write::%s (a short write is not an error)' % e[1])
+                    out.extend(e[2] or [('unknown-buffer',)])
+            if out != want:
+                first = next((k for k, (x_, y_) in enumerate(zip(out, want)) if x_ != y_), min(len(out), len(want)))
+                bad.append('the stream receives %d bytes; byte %d is %r, expected %r (coefficients in the order %s)' % (len(out), first, out[first] if first < len(out) else None, want[first] if first < len(want) else None, srcs))
+        if res and oks < 1:
+            bad.append('no success path')
+        rep.check(not bad, 'WIRE', '%s:serialize' % label, 'the caller\'s writer receives exactly the %d x %d canonical big-endian bytes of the coefficients in reader order; write errors -> Err' % (nco, width),
+                  '; '.join(sorted(set(bad))[:3]), where, construct=sp)
 
 
 def fq12_slot_order(fx, b):
